@@ -1058,6 +1058,12 @@ static char *format_time(struct tm *tm) {
 }
 
 void init_macros(void) {
+#ifdef CHIBICC_VERIF
+  if (vtrace_on()) {
+    vtrace("\"e\":\"mapname\",\"m\":\"%p\",\"name\":\"macros\"", (void *)&macros);
+    vtrace("\"e\":\"mapname\",\"m\":\"%p\",\"name\":\"pragma_once\"", (void *)&pragma_once);
+  }
+#endif
   // Define predefined macros
   define_macro("_LP64", "1");
   define_macro("__C99_MACRO_WITH_VA_ARGS", "1");
